@@ -52,12 +52,24 @@ def run_module(mod, repo, verif, timeout=900):
         missing = [t for t in mod.get('tests', {}) if t not in ran_tests]
         if missing or not ran_tests:
             return False, [], 'registered tests did not run: %s\n' % ', '.join(missing) + out[-2500:]
+        # one entry per FAILED test: its own panic message (thread named after the test) and, when the test only
+        # observed the damage (e.g. a session thread that died), the first panic of another thread as context
+        panics = [(mm.group(1).split('::')[-1], mm.group(3).strip()[:600], mm.group(2))
+                  for mm in re.finditer(r"thread '([^']+)'[^\n]*panicked at ([^\n]*):\n([^\n]*)", out)]
+        failed_tests = [t.split('::')[-1] for t in re.findall(r'^test (\S+) \.\.\. FAILED', out, re.M)]
         fails = []
-        for mm in re.finditer(r"thread '([^']+)'[^\n]*panicked at ([^\n]*):\n([^\n]*)", out):
-            fails.append((mm.group(1).split('::')[-1], mm.group(3).strip()[:600], mm.group(2)))
-        failed_tests = re.findall(r'^test (\S+) \.\.\. FAILED', out, re.M)
-        if failed_tests and not fails:
-            fails = [(t.split('::')[-1], 'failed (no panic message captured)', '') for t in failed_tests]
+        for t in failed_tests:
+            own = [p for p in panics if p[0] == t]
+            other = [p for p in panics if p[0] not in failed_tests and p[0] not in ran_tests]
+            if own:
+                msg, at = own[-1][1], own[-1][2]
+                if other and len(failed_tests) == 1:
+                    msg += ' [thread %s: %s at %s]' % (other[0][0], other[0][1][:200], other[0][2])
+            elif other:
+                msg, at = other[0][1], other[0][2]
+            else:
+                msg, at = 'failed (no panic message captured)', ''
+            fails.append((t, msg, at))
         return True, fails, out[-3000:]
     finally:
         shutil.rmtree(scratch, ignore_errors=True)
